@@ -160,7 +160,7 @@ def reads_are_copies(a: int, b: int, c: int, m: int, path: int) -> bool:
     return ctx.done(ok, 'mutated')
 
 
-def replay_is_repeatable(a: int, b: int, c: int, m: int, copy_on: bool, mutate_after_capture: bool) -> bool:
+def replay_is_repeatable(a: int, b: int, c: int, m: int, copy_on: bool, mutate_after_capture: bool, handler: bool) -> bool:
     """
     pre: 0 <= m <= 2 and c != a and c != b
     post: _
@@ -175,6 +175,16 @@ def replay_is_repeatable(a: int, b: int, c: int, m: int, copy_on: bool, mutate_a
     tr = r.tr
     live = {'v': None}
     seen = []
+    from playback.interception.input_interception import InputInterceptionDataHandler
+
+    class Envelope(InputInterceptionDataHandler):
+        """a data handler whose prepared form is a new outer object that still references the live result"""
+        def prepare_input_for_recording(self, interception_key, result, args, kwargs):
+            return {'table': 't', 'rows': result}
+
+        def restore_input_from_recording(self, recorded_data, args, kwargs):
+            return recorded_data['rows']
+    hkw = {'data_handler': Envelope()} if handler else {}
 
     @tr.recording_params(copy_data_on_intercepion=copy_on)
     class Svc(object):
@@ -187,7 +197,7 @@ def replay_is_repeatable(a: int, b: int, c: int, m: int, copy_on: bool, mutate_a
             self.write(v)
             return 0
 
-        @tr.intercept_input('in')
+        @tr.intercept_input('in', **hkw)
         def read(self):
             live['v'] = make_value(shape, a, b)
             return live['v']
@@ -220,6 +230,11 @@ def replay_is_repeatable(a: int, b: int, c: int, m: int, copy_on: bool, mutate_a
     for o in pb2.recorded_outputs:
         if o.key.startswith('output: out'):
             ok = ok and _eq(o.value['args'][0], sent)
+    # ... and do not alias the data of the Playback's own original_recording
+    for o in pb2.recorded_outputs:
+        if o.key.startswith('output: out'):
+            mutate(shape, o.value['args'][0], m, c)
+            ok = ok and _eq(pb2.original_recording.get_data(o.key)['args'][0], sent)
     ctx.mark('replayed-twice')
     return ctx.done(ok, 'replayed-twice')
 
